@@ -383,7 +383,7 @@ impl RefServer {
                     };
                     let salt = g.bytes(n);
                     let echoed = if o.wrong_request_salt { g.bytes(n) } else { r.salt.clone() };
-                    let (wire, mut e) = refimpl::ss2022::response(&c.cipher, &key, &salt, &echoed, data, o.stream_type.unwrap_or(1), (self.now as i64 + o.ts_offset) as u64);
+                    let (wire, mut e) = refimpl::ss2022::response(&c.cipher, &key, &salt, &echoed, data, o.stream_type.unwrap_or(1), (self.now as i64).wrapping_add(o.ts_offset) as u64);
                     if let Some(m) = o.max_chunk {
                         e.max_chunk = m;
                     }
